@@ -54,7 +54,10 @@ def gen_history(rng: random.Random, kind: str):
             ops.append(("is_empty",))
         else:
             ops.append(("clear",)); live = set()
-    return {"kind": kind, "pool": pool, "ops": ops}
+    # which pool entries are events of a SimEvent *subclass* (models subclass
+    # SimEvent freely; creation order must still break ties across classes)
+    sub = [rng.random() < 0.4 for _ in range(m)]
+    return {"kind": kind, "pool": pool, "ops": ops, "sub": sub}
 
 
 def exhaustive_histories(max_len: int):
@@ -110,7 +113,11 @@ def run_impl(hist, drain_every_step=False):
     from pydsol.core.simevent import SimEvent
     kind, pool, ops = hist["kind"], hist["pool"], hist["ops"]
     tgt = _Target()
-    evs = [SimEvent(make_time(kind, t4, i), tgt, "m", prio) for i, (t4, prio) in enumerate(pool)]
+    class _SubEvent(SimEvent):          # an ordinary user subclass of SimEvent
+        pass
+    sub = hist.get("sub") or [False] * len(pool)
+    evs = [(_SubEvent if sub[i] else SimEvent)(make_time(kind, t4, i), tgt, "m", prio)
+           for i, (t4, prio) in enumerate(pool)]
     # model time must be exact
     for i, (t4, _) in enumerate(pool):
         assert float(evs[i].time) * 1024 == time_scaled(kind, t4), (kind, t4, evs[i].time)
